@@ -175,12 +175,27 @@ func runC20(c *Ctx) error {
 			orig := append(message.IKEPayloadContainer(nil), pm.Payloads...)
 			ob := sxPayloads(orig).String()
 			h0 := *pm.IKEHeader
+			// the caller's own reference to the payload list it handed to the message (same backing array), and a second
+			// message built from the same list: protecting pm must alter neither
+			callerView := pm.Payloads
+			h2 := *pm.IKEHeader
+			pm2 := &message.IKEMessage{IKEHeader: &h2, Payloads: callerView}
+			enc2a, err2a := pm2.Encode()
 			var wireP []byte
 			withScript(rng.Bytes(32), nil, func(*scriptReader) { wireP, err = ike.EncodeEncrypt(pm, sa, roleOf(k.role)) })
 			pcs := fmt.Sprintf("(protect %s %s)", k.role, msx)
 			if err == nil {
 				if sxPayloads(orig).String() != ob {
 					fail("protecting a message alters its original payload objects", pcs, ob, sxPayloads(orig).String())
+				}
+				for j := range callerView {
+					if callerView[j] != orig[j] {
+						fail("protecting a message overwrites the payload list the caller still holds (same backing array)", pcs, ob, sxPayloads(callerView).String())
+						break
+					}
+				}
+				if enc2b, err2b := pm2.Encode(); (err2a == nil) != (err2b == nil) || !bytes.Equal(enc2a, enc2b) {
+					fail("protecting a message changes the encoding of another message built from the same payload list", pcs, hx(enc2a), hx(enc2b))
 				}
 				h1 := *pm.IKEHeader
 				if h1.InitiatorSPI != h0.InitiatorSPI || h1.ResponderSPI != h0.ResponderSPI || h1.MajorVersion != h0.MajorVersion || h1.MinorVersion != h0.MinorVersion ||
